@@ -300,12 +300,12 @@ Single ==
       \/ Fin("pd1", <<E(Lay.t, "R1"), E(Lay.t, "R1")>>, <<>>, "dup")
       \/ \E j \in OtherPos : Fin("pd1", <<E(Lay.t, "R1"), E(j, "R1")>>, <<>>, "dupto")
       \/ Fin("pd1", <<>>, <<>>, "drop")
-      \/ ((Main /\ AtBoundary) \/ FullOps) /\ \E a \in Alts(StmtDesc(st.S)) : Fin("pd1", <<[at |-> Lay.t, src |-> "R1", alt |-> a]>>, <<>>, "alter")
-      \/ ((Main /\ AtBoundary) \/ FullOps) /\ \E a \in Alts(StmtDesc(st.S)) :
+      \/ (Main /\ (AtBoundary \/ FullOps)) /\ \E a \in Alts(StmtDesc(st.S)) : Fin("pd1", <<[at |-> Lay.t, src |-> "R1", alt |-> a]>>, <<>>, "alter")
+      \/ (Main /\ (AtBoundary \/ FullOps)) /\ \E a \in Alts(StmtDesc(st.S)) :
             a.f \in {"K", "Sign", "A"} /\ Fin("pd1", <<E(Lay.t, "R1"), [at |-> Lay.t, src |-> "R1", alt |-> a]>>, <<>>, "alterdup")
 \* the verifier's ProofD object has verified the honest proof before (1: then altered in place, 2: another document decoded into it)
 Reverify ==
-   /\ st.two = 0 /\ ((Main /\ AtBoundary /\ st.S.factor = 1) \/ FullOps)
+   /\ st.two = 0 /\ Main /\ ((AtBoundary /\ st.S.factor = 1) \/ FullOps)
    /\ \E re \in {1, 2} :
         LET F(cs, op) == st' = [st EXCEPT !.step = 1, !.re = re, !.cs = cs, !.op = op] IN
         \/ F(Honest1, "reverify-honest")
